@@ -8,7 +8,6 @@ import (
 	"go/ast"
 	"go/token"
 	"go/types"
-	"strings"
 
 	"verif/sa/internal/core"
 )
@@ -26,12 +25,11 @@ func lostUpdate(c *Ctx) {
 	e := effects(c)
 	count := map[string]int{}
 	for _, fi := range c.P.SortedFuncs() {
-		file := c.P.Fset.Position(fi.Decl.Pos()).Filename
 		prop := ""
 		switch {
-		case strings.HasSuffix(file, "/fixer.go"):
+		case c.below(fi, "FixEmptyResponseDescriptions"):
 			prop = "C19"
-		case strings.Contains(file, "/internal/flatten/replace/"), strings.HasSuffix(file, "/flatten.go"), strings.HasSuffix(file, "/flatten_name.go"):
+		case c.below(fi, "Flatten") && !c.onSpec(fi) && !c.below(fi, "Schema"):
 			prop = "C01"
 		default:
 			continue
